@@ -21,9 +21,13 @@ def gen_handle(wd):
     open(os.path.join(wd, "c16_handle.inc"), "w").write("/* constants of EbEncHandle.c, verbatim */\n" + consts + slicer.functions(EH, ["svt_enc_handle_stop_threads", "svt_enc_handle_dctor", "svt_enc_handle_ctor"]))
 def queries(tier, fail=1, prefix="fail_"):
     qs = []
-    qs.append(Query(name=prefix + "enc_handle", harness="C16/ctors.c", gen=gen_handle, defines=["OBJ=5", "FAIL=%d" % fail], unwind=3, funcs=[EH + ":svt_enc_handle_ctor", EH + ":svt_enc_handle_dctor", EH + ":svt_enc_handle_stop_threads"],
-                    bound="handle creation (svt_av1_enc_init_handle -> svt_enc_handle_ctor); the sequence-control-set instance constructor replaced by a stand-in with 4 requests" + ("; the k-th allocation request fails, all k" if fail else "; no failures"),
-                    what="construction failure of the encoder handle is reported and unwound without crash or leak" if fail else "handle constructor+destructor release every allocation", timeout=900))
+    # one query per failure position: with a symbolic position the ~40 array-delete loops of the handle destructor read their counts through
+    # a pointer that is NULL on some merged paths, become symbolic and are unrolled to the bound (no verdict in 15 min); concrete positions take seconds
+    for kk in (range(0, 10) if fail else [99]):
+        qs.append(Query(name=prefix + "enc_handle" + ("_k%d" % kk if fail else ""), harness="C16/ctors.c", gen=gen_handle, defines=["OBJ=5", "FAIL=%d" % fail] + (["KLO=%d" % kk, "KHI=%d" % kk] if fail else []), unwind=3,
+                        funcs=[EH + ":svt_enc_handle_ctor", EH + ":svt_enc_handle_dctor", EH + ":svt_enc_handle_stop_threads"],
+                        bound="handle creation (svt_av1_enc_init_handle -> svt_enc_handle_ctor); the sequence-control-set instance constructor replaced by a stand-in with 4 requests (8 requests in total)" + ("; request number %d fails (a number beyond the last request = no failure)" % kk if fail else "; no failures"),
+                        what="construction failure of the encoder handle is reported and unwound without crash or leak" if fail else "handle constructor+destructor release every allocation", timeout=600))
     for k, (n, funcs, b) in OBJS.items():
         if k == 2 and fail:
             continue      # measured: the resource manager's partial-teardown paths need >12 GB per query and did not finish; not registered
